@@ -41,6 +41,21 @@ def plugin_effect_native(p, args):
 spec.UF_TABLE["plugin_effect"] = plugin_effect_native
 
 
+def header_text_ref(v):
+    """reference (OpenAPI style `simple`): text as it is, booleans as true / false, numbers in decimal, arrays comma-separated"""
+    if isinstance(v, str):
+        return v
+    if isinstance(v, bool):
+        return "true" if v else "false"
+    if isinstance(v, (list, tuple)):
+        return ",".join(header_text_ref(x) for x in v)
+    return str(v)
+
+
+spec.UF_TABLE["fn.header_text"] = header_text_ref
+spec.UF_TABLE["fn.header_texts"] = lambda d: {k: header_text_ref(v) for k, v in d.items()}
+
+
 def make_plugin(kind, f):
     from pyopenapi_gen.core.auth.plugins import ApiKeyAuth, BearerAuth, HeadersAuth
     if kind == "bearer":
